@@ -119,7 +119,7 @@ type c11Bundle struct {
 }
 
 // H_roundtrip: message msg of the dictionary inside context ctx (0 plain, 1 inside a foreach,
-// 2 inside a called template), catalogue cat: 0 identity, 1 reversed parts, 2 message absent.
+// 2 inside a called template, 3 inside the content block of a call param), catalogue cat: 0 identity, 1 reversed parts, 2 message absent.
 func H_roundtrip(msg, ctx, cat int) {
 	segs := c11Msgs[msg]
 	m := "{msg desc=\"d\"}" + c11MsgSrc(segs) + "{/msg}"
@@ -130,8 +130,8 @@ func H_roundtrip(msg, ctx, cat int) {
 	case 1:
 		src = "{namespace n}\n" + c11Doc + "{template .t}\n{foreach $i in $l}{$i}:" + m + ";{/foreach}{$n}{$a}{$b}{$c}{$x_1}\n{/template}\n"
 	case 3:
-		// the message twice in one template (same id), the second after other output
-		src = "{namespace n}\n" + c11Doc + "{template .t}\n[" + m + "]{$n}{$l}{$a}{$b}{$c}{$x_1}\n{/template}\n"
+		// inside the content block of a call param
+		src = "{namespace n}\n" + c11Doc + "{template .t}\n<{call .w}{param content}" + m + "{/param}{/call}>{$n}{$l}{$a}{$b}{$c}{$x_1}\n{/template}\n/** @param content */\n{template .w}\n({$content|noAutoescape})\n{/template}\n"
 	case 2:
 		src = "{namespace n}\n" + c11Doc + "{template .t}\n<{call .u data=\"all\" /}>\n{/template}\n" + c11Doc + "{template .u}\n" + m + "{$n}{$l}{$a}{$b}{$c}{$x_1}\n{/template}\n"
 	}
